@@ -1,438 +1,169 @@
 /-
-Helper lemmas for C14 (load collectives, histograms, re-binning).  Real-number semantics of
-`Model/Collective.lean`.
+Helper lemmas for C14, part 2: re-binning (`rebin`, `aggregate`, `shareC`, two-level, NaN contents) over ℝ.
 -/
-import Model.Collective
-import Proofs.RealNum
-import Mathlib.Tactic.Ring
-import Mathlib.Tactic.Linarith
-import Mathlib.Tactic.FieldSimp
-import Mathlib.Tactic.NormNum.OfScientific
-import Mathlib.Algebra.Order.AbsoluteValue.Basic
-import Mathlib.Algebra.BigOperators.Group.List.Basic
+import Proofs.Lemmas.CollectiveBase
 
 namespace PylifeVerif.Collective
 
-/-! ### literals -/
-@[simp] theorem lit_zero : (0.0 : ℝ) = 0 := by norm_num
-@[simp] theorem lit_one : (1.0 : ℝ) = 1 := by norm_num
-@[simp] theorem lit_two : (2.0 : ℝ) = 2 := by norm_num
-@[simp] theorem lit_half : (0.5 : ℝ) = 1 / 2 := by norm_num
+/-! ### classes vs. pairs -/
 
-/-! ### sums -/
-theorem total_eq_sum (l : List ℝ) : total l = l.sum := by
-  induction l with
-  | nil => simp [total]
-  | cons x xs ih => simp only [total, List.foldr_cons, List.sum_cons] at ih ⊢; rw [ih]
+/-- The classes of an edge list without the "last" flag are its consecutive pairs. -/
+theorem classes_map_pairs : ∀ l : List ℝ, (classes l).map (fun c => (c.1, c.2.1)) = pairs l
+  | [] => by simp [classes, pairs]
+  | [_] => by simp [classes, pairs]
+  | [_, _] => by simp [classes, pairs]
+  | a :: b :: c :: rest => by
+    exact congrArg (List.cons (a, b)) (classes_map_pairs (b :: c :: rest))
 
-theorem wsum_eq_sum (l : List (ℝ × ℝ)) : wsum l = (l.map (·.2)).sum := by
-  induction l with
-  | nil => simp [wsum]
-  | cons x xs ih => simp only [wsum, List.foldr_cons, List.map_cons, List.sum_cons] at ih ⊢; rw [ih]
+theorem classes_length (l : List ℝ) : (classes l).length = (pairs l).length := by
+  rw [← classes_map_pairs, List.length_map]
 
-/-! ### monotone edge lists -/
+theorem classes_mem_pairs (l : List ℝ) (c : ℝ × ℝ × Bool) (hc : c ∈ classes l) : (c.1, c.2.1) ∈ pairs l := by
+  rw [← classes_map_pairs]
+  exact List.mem_map.mpr ⟨c, hc, rfl⟩
 
-/-- Weakly increasing list (numpy accepts repeated edges). -/
-def Mono : List ℝ → Prop
-  | a :: b :: rest => a ≤ b ∧ Mono (b :: rest)
-  | _ => True
+/-- A sum over the classes of a function of the two bounds only is the sum over the pairs. -/
+theorem classes_sum_pairs (l : List ℝ) (f : ℝ × ℝ → ℝ) :
+    ((classes l).map fun c => f (c.1, c.2.1)).sum = ((pairs l).map f).sum := by
+  rw [← classes_map_pairs, List.map_map]; rfl
 
-/-- Strictly increasing list. -/
-def SMono : List ℝ → Prop
-  | a :: b :: rest => a < b ∧ SMono (b :: rest)
-  | _ => True
-
-theorem SMono.mono : ∀ {l : List ℝ}, SMono l → Mono l
-  | [], _ => trivial
-  | [_], _ => trivial
-  | _ :: b :: rest, h => ⟨le_of_lt h.1, SMono.mono (l := b :: rest) h.2⟩
-
-theorem Mono.le_getLast : ∀ (a : ℝ) (rest : List ℝ), Mono (a :: rest) →
-    a ≤ (a :: rest).getLast (List.cons_ne_nil _ _)
-  | a, [], _ => le_refl a
-  | a, b :: rest, h => by
-    rw [List.getLast_cons_cons]
-    exact le_trans h.1 (Mono.le_getLast b rest h.2)
-
-/-! ### weighted filter sums -/
-
-/-- `Σ w x` over the members of `l` satisfying `P`. -/
-def fsum {β : Type} (w : β → ℝ) (P : β → Bool) (l : List β) : ℝ := ((l.filter P).map w).sum
-
-theorem fsum_nil {β : Type} (w : β → ℝ) (P : β → Bool) : fsum w P [] = 0 := by simp [fsum]
-
-theorem fsum_cons {β : Type} (w : β → ℝ) (P : β → Bool) (x : β) (l : List β) :
-    fsum w P (x :: l) = (if P x then w x else 0) + fsum w P l := by
-  unfold fsum
-  by_cases h : P x <;> simp [h]
-
-theorem wsum_filter (P : ℝ × ℝ → Bool) (l : List (ℝ × ℝ)) : wsum (l.filter P) = fsum (·.2) P l := by
-  rw [wsum_eq_sum]; rfl
-
-/-- Disjoint classes add up. -/
-theorem fsum_split {β : Type} (w : β → ℝ) (P Q R : β → Bool) (l : List β)
-    (h : ∀ x ∈ l, (R x = (P x || Q x)) ∧ ¬(P x = true ∧ Q x = true)) :
-    fsum w P l + fsum w Q l = fsum w R l := by
-  induction l with
-  | nil => simp [fsum_nil]
-  | cons x xs ih =>
-    have hx := h x (List.mem_cons_self ..)
-    have ih' := ih (fun y hy => h y (List.mem_cons_of_mem _ hy))
-    have hx2 := hx.2
-    rw [fsum_cons, fsum_cons, fsum_cons, hx.1]
-    cases hp : P x <;> cases hq : Q x <;> simp [hp, hq] at hx2 ⊢ <;> linarith
-
-theorem fsum_congr {β : Type} (w : β → ℝ) (P Q : β → Bool) (l : List β) (h : ∀ x ∈ l, P x = Q x) :
-    fsum w P l = fsum w Q l := by
-  unfold fsum
-  rw [List.filter_congr h]
-
-/-! ### numpy's bin rule -/
-
-theorem inBin_last (lo hi v : ℝ) : inBin lo hi true v = (decide (lo ≤ v) && decide (v ≤ hi)) := by
-  unfold inBin
-  by_cases h1 : lo ≤ v <;> by_cases h2 : v < hi <;> by_cases h3 : v ≤ hi <;> simp [h1, h2, h3]
-  exact absurd (le_of_lt h2) h3
-
-theorem inBin_inner (lo hi v : ℝ) : inBin lo hi false v = (decide (lo ≤ v) && decide (v < hi)) := by
-  unfold inBin; simp
-
-/-- The weight inside the covered range `[e₀, eₙ]`. -/
-noncomputable def inRange (lo hi : ℝ) (v : ℝ) : Bool := decide (lo ≤ v) && decide (v ≤ hi)
-
-/-- Partition: the class contents of a histogram over weakly increasing edges sum to the weight of the points in `[e₀, eₙ]`. -/
-theorem hist_total : ∀ (e0 : ℝ) (rest : List ℝ) (pts : List (ℝ × ℝ)), rest ≠ [] → Mono (e0 :: rest) →
-    total (hist (e0 :: rest) pts) =
-      fsum (·.2) (fun p => inRange e0 ((e0 :: rest).getLast (List.cons_ne_nil _ _)) p.1) pts
-  | e0, [], _, h, _ => absurd rfl h
-  | e0, [e1], pts, _, _ => by
-    simp only [hist, classes, List.map_cons, List.map_nil, total_eq_sum, List.sum_cons, List.sum_nil, add_zero,
-      wsum_filter, List.getLast_cons_cons, List.getLast_singleton]
-    apply fsum_congr
-    intro x _
-    rw [inBin_last]; rfl
-  | e0, e1 :: e2 :: rest, pts, _, hm => by
-    have ih := hist_total e1 (e2 :: rest) pts (List.cons_ne_nil _ _) hm.2
-    have hle := Mono.le_getLast e1 (e2 :: rest) hm.2
-    simp only [hist, classes, List.map_cons, total_eq_sum, List.sum_cons] at ih ⊢
-    have hL : (e0 :: e1 :: e2 :: rest).getLast (List.cons_ne_nil _ _) =
-        (e1 :: e2 :: rest).getLast (List.cons_ne_nil _ _) := List.getLast_cons_cons ..
-    rw [ih, wsum_filter, hL]
-    generalize (e1 :: e2 :: rest).getLast (List.cons_ne_nil _ _) = L at hle ⊢
-    apply fsum_split
-    intro x _
-    simp only [inBin_inner, inRange]
-    have h01 := hm.1
-    by_cases a : e0 ≤ x.1 <;> by_cases b : x.1 < e1 <;> by_cases c : e1 ≤ x.1 <;>
-      by_cases d : x.1 ≤ L <;> simp [a, b, c, d] <;> linarith
-
-/-- Exactly one class: over weakly increasing edges a value in `[e₀, eₙ]` lies in exactly one class, a value outside in none. -/
-theorem classes_count : ∀ (e0 : ℝ) (rest : List ℝ) (v : ℝ), rest ≠ [] → Mono (e0 :: rest) →
-    (classes (e0 :: rest)).countP (fun c => inBin c.1 c.2.1 c.2.2 v) =
-      if inRange e0 ((e0 :: rest).getLast (List.cons_ne_nil _ _)) v then 1 else 0
-  | e0, [], _, h, _ => absurd rfl h
-  | e0, [e1], v, _, _ => by
-    simp [classes, inBin_last, inRange]
-  | e0, e1 :: e2 :: rest, v, _, hm => by
-    have ih := classes_count e1 (e2 :: rest) v (List.cons_ne_nil _ _) hm.2
-    have hle := Mono.le_getLast e1 (e2 :: rest) hm.2
-    simp only [classes, List.countP_cons] at ih ⊢
-    have hL : (e0 :: e1 :: e2 :: rest).getLast (List.cons_ne_nil _ _) =
-        (e1 :: e2 :: rest).getLast (List.cons_ne_nil _ _) := List.getLast_cons_cons ..
-    rw [ih, hL]
-    generalize (e1 :: e2 :: rest).getLast (List.cons_ne_nil _ _) = L at hle ⊢
-    simp only [inBin_inner, inRange]
-    have h01 := hm.1
-    by_cases a : e0 ≤ v <;> by_cases b : v < e1 <;> by_cases c : e1 ≤ v <;>
-      by_cases d : v ≤ L <;> simp [a, b, c, d] <;> linarith
-
-/-! ### two-dimensional histogram -/
-
-theorem fsum_swap_aux (Pc R : ℝ → Bool) (pts : List (ℝ × ℝ × ℝ)) :
-    fsum (·.2) (fun p => R p.1) ((pts.filter fun p => Pc p.1).map fun p => (p.2.1, p.2.2)) =
-    fsum (·.2) (fun p => Pc p.1) ((pts.filter fun p => R p.2.1).map fun p => (p.1, p.2.2)) := by
-  induction pts with
-  | nil => simp [fsum]
-  | cons x xs ih =>
-    cases hp : Pc x.1 <;> cases hr : R x.2.1 <;>
-      simp [hp, hr, fsum_cons, ih]
-
-/-- Row totals of the two-dimensional histogram = one-dimensional histogram (over the first coordinate) of
-the points whose second coordinate lies in the covered range. -/
-theorem hist2d_rows_total (ex : List ℝ) (y0 : ℝ) (rest : List ℝ) (pts : List (ℝ × ℝ × ℝ))
-    (hr : rest ≠ []) (hm : Mono (y0 :: rest)) :
-    (hist2d ex (y0 :: rest) pts).map total =
-      hist ex ((pts.filter fun p => inRange y0 ((y0 :: rest).getLast (List.cons_ne_nil _ _)) p.2.1).map
-        fun p => (p.1, p.2.2)) := by
-  have key : ∀ c : ℝ × ℝ × Bool,
-      total (hist (y0 :: rest) ((pts.filter fun p => inBin c.1 c.2.1 c.2.2 p.1).map fun p => (p.2.1, p.2.2))) =
-      wsum (((pts.filter fun p => inRange y0 ((y0 :: rest).getLast (List.cons_ne_nil _ _)) p.2.1).map
-        fun p => (p.1, p.2.2)).filter fun p => inBin c.1 c.2.1 c.2.2 p.1) := by
-    intro c
-    rw [hist_total y0 rest _ hr hm, wsum_filter]
-    exact fsum_swap_aux (fun v => inBin c.1 c.2.1 c.2.2 v)
-      (fun v => inRange y0 ((y0 :: rest).getLast (List.cons_ne_nil _ _)) v) pts
-  unfold hist2d
-  rw [List.map_map]
-  simp only [Function.comp_def, key]
-  rfl
-
-/-! ### re-binning -/
-
-theorem minA_eq (a b : ℝ) : minA a b = min a b := by
-  unfold minA
-  rcases lt_or_ge b a with h | h
-  · rw [if_pos h, min_eq_right (le_of_lt h)]
-  · rw [if_neg (not_lt.mpr h), min_eq_left h]
-
-theorem maxA_eq (a b : ℝ) : maxA a b = max a b := by
-  unfold maxA
-  rcases lt_or_ge a b with h | h
-  · rw [if_pos h, max_eq_right (le_of_lt h)]
-  · rw [if_neg (not_lt.mpr h), max_eq_left h]
-
-/-- Fraction of the class `(l, r]` that falls into `(tl, tr]` (as the code computes it). -/
-noncomputable def kap (tl tr l r : ℝ) : ℝ := if l < tr ∧ tl < r then (min tr r - max tl l) / (r - l) else 0
-
-theorem share_eq (tl tr : ℝ) (s : Bin ℝ) : share tl tr s = s.v * kap tl tr s.l s.r := by
-  unfold share kap
-  split_ifs <;> simp [minA_eq, maxA_eq]
-
-theorem share_fun (tl tr : ℝ) : share (α := ℝ) tl tr = fun s => s.v * kap tl tr s.l s.r :=
-  funext (share_eq tl tr)
-
-/-- Clamp `x` into `[l, r]`. -/
-noncomputable def cl (l r x : ℝ) : ℝ := min r (max l x)
-
-theorem cl_of_le {l r x : ℝ} (h : x ≤ l) (hlr : l ≤ r) : cl l r x = l := by
-  unfold cl; rw [max_eq_left h, min_eq_right hlr]
-theorem cl_of_ge {l r x : ℝ} (h : r ≤ x) (hlr : l ≤ r) : cl l r x = r := by
-  unfold cl; rw [max_eq_right (le_trans hlr h), min_eq_left h]
-theorem cl_of_mem {l r x : ℝ} (h1 : l ≤ x) (h2 : x ≤ r) : cl l r x = x := by
-  unfold cl; rw [max_eq_right h1, min_eq_right h2]
-
-/-- share = difference of the target's end points clamped into the source class. -/
-theorem kap_clamp (tl tr l r : ℝ) (ht : tl ≤ tr) (hlr : l < r) :
-    kap tl tr l r = (cl l r tr - cl l r tl) / (r - l) := by
-  unfold kap
-  have hle := le_of_lt hlr
-  split_ifs with h
-  · congr 1
-    obtain ⟨h1, h2⟩ := h
-    rcases le_total tr r with a | a
-    · rw [cl_of_mem (le_of_lt h1) a, min_eq_left a]
-      rcases le_total tl l with b | b
-      · rw [cl_of_le b hle, max_eq_right b]
-      · rw [cl_of_mem b (le_trans ht a), max_eq_left b]
-    · rw [cl_of_ge a hle, min_eq_right a]
-      rcases le_total tl l with b | b
-      · rw [cl_of_le b hle, max_eq_right b]
-      · rw [cl_of_mem b (le_of_lt h2), max_eq_left b]
-  · rcases not_and_or.mp h with h | h
-    · have h' : tr ≤ l := not_lt.mp h
-      rw [cl_of_le h' hle, cl_of_le (le_trans ht h') hle]; simp
-    · have h' : r ≤ tl := not_lt.mp h
-      rw [cl_of_ge h' hle, cl_of_ge (le_trans h' ht) hle]; simp
-
-/-- share = difference of the source's end points clamped into the target class. -/
-theorem kap_clamp' (tl tr l r : ℝ) (ht : tl ≤ tr) (hlr : l < r) :
-    kap tl tr l r = (cl tl tr r - cl tl tr l) / (r - l) := by
-  unfold kap
-  have hle := le_of_lt hlr
-  split_ifs with h
-  · congr 1
-    obtain ⟨h1, h2⟩ := h
-    rcases le_total tr r with a | a
-    · rw [cl_of_ge a ht, min_eq_left a]
-      rcases le_total tl l with b | b
-      · rw [cl_of_mem b (le_of_lt h1), max_eq_right b]
-      · rw [cl_of_le b ht, max_eq_left b]
-    · rw [cl_of_mem (le_of_lt h2) a, min_eq_right a]
-      rcases le_total tl l with b | b
-      · rw [cl_of_mem b (le_of_lt h1), max_eq_right b]
-      · rw [cl_of_le b ht, max_eq_left b]
-  · rcases not_and_or.mp h with h | h
-    · have h' : tr ≤ l := not_lt.mp h
-      rw [cl_of_ge h' ht, cl_of_ge (le_trans h' hle) ht]; simp
-    · have h' : r ≤ tl := not_lt.mp h
-      rw [cl_of_le h' ht, cl_of_le (le_trans hle h') ht]; simp
-
-theorem pairs_telescope (f : ℝ → ℝ) : ∀ (b0 : ℝ) (rest : List ℝ),
-    ((pairs (b0 :: rest)).map fun p => f p.2 - f p.1).sum =
-      f ((b0 :: rest).getLast (List.cons_ne_nil _ _)) - f b0
-  | b0, [] => by simp [pairs]
-  | b0, b1 :: rest => by
-    have ih := pairs_telescope f b1 rest
-    have hL : (b0 :: b1 :: rest).getLast (List.cons_ne_nil _ _) =
-        (b1 :: rest).getLast (List.cons_ne_nil _ _) := List.getLast_cons_cons ..
-    simp only [pairs, List.map_cons, List.sum_cons, ih, hL]
+theorem sum_ite_countP {β : Type} (P : β → Bool) : ∀ l : List β,
+    (l.map fun c => if P c = true then (1 : ℝ) else 0).sum = (l.countP P : ℝ)
+  | [] => by simp
+  | x :: xs => by
+    have ih := sum_ite_countP P xs
+    cases h : P x <;> simp [h, ih]
     ring
 
-theorem pairs_bounds : ∀ (b0 : ℝ) (rest : List ℝ), Mono (b0 :: rest) → ∀ p ∈ pairs (b0 :: rest),
-    b0 ≤ p.1 ∧ p.1 ≤ p.2 ∧ p.2 ≤ (b0 :: rest).getLast (List.cons_ne_nil _ _)
-  | b0, [], _, p, hp => by simp [pairs] at hp
-  | b0, b1 :: rest, hm, p, hp => by
-    have hL : (b0 :: b1 :: rest).getLast (List.cons_ne_nil _ _) =
-        (b1 :: rest).getLast (List.cons_ne_nil _ _) := List.getLast_cons_cons ..
-    have hle := Mono.le_getLast b1 rest hm.2
-    simp only [pairs, List.mem_cons] at hp
-    rw [hL]
-    rcases hp with rfl | hp
-    · exact ⟨le_refl _, hm.1, hle⟩
-    · obtain ⟨h1, h2, h3⟩ := pairs_bounds b1 rest hm.2 p hp
-      exact ⟨le_trans hm.1 h1, h2, h3⟩
+/-! ### the share of a class, zero width included -/
 
-theorem pairs_strict : ∀ (l : List ℝ), SMono l → ∀ p ∈ pairs l, p.1 < p.2
-  | [], _, p, hp => by simp [pairs] at hp
-  | [_], _, p, hp => by simp [pairs] at hp
-  | b0 :: b1 :: rest, hm, p, hp => by
-    simp only [pairs, List.mem_cons] at hp
-    rcases hp with rfl | hp
-    · exact hm.1
-    · exact pairs_strict (b1 :: rest) hm.2 p hp
+/-- Fraction of the source class `(l, r]` (or of the point `r` when the class has no width) that the class `c` receives. -/
+noncomputable def kapC (c : ℝ × ℝ × Bool) (l r : ℝ) : ℝ :=
+  if l < r then kap c.1 c.2.1 l r else if inBin c.1 c.2.1 c.2.2 r then 1 else 0
 
-theorem sum_map_sum_comm {β γ : Type} (l1 : List β) (l2 : List γ) (f : β → γ → ℝ) :
-    (l1.map fun a => (l2.map fun b => f a b).sum).sum = (l2.map fun b => (l1.map fun a => f a b).sum).sum := by
-  induction l1 with
-  | nil => simp
-  | cons a as ih => simp only [List.map_cons, List.sum_cons, ih, List.sum_map_add]
+theorem shareC_eq (c : ℝ × ℝ × Bool) (s : Bin ℝ) : shareC c s = s.v * kapC c s.l s.r := by
+  unfold shareC kapC
+  split_ifs <;> simp [share_eq]
 
-/-- One source class is fully distributed over a gap-free binning that covers it. -/
-theorem kap_sum (l r b0 : ℝ) (rest : List ℝ) (hm : Mono (b0 :: rest)) (hpos : l < r)
+theorem shareC_fun (c : ℝ × ℝ × Bool) : shareC (α := ℝ) c = fun s => s.v * kapC c s.l s.r :=
+  funext (shareC_eq c)
+
+theorem shareC_of_pos (c : ℝ × ℝ × Bool) (s : Bin ℝ) (h : s.l < s.r) : shareC c s = share c.1 c.2.1 s := by
+  unfold shareC; rw [if_pos h]
+
+theorem kapC_of_pos (c : ℝ × ℝ × Bool) (l r : ℝ) (h : l < r) : kapC c l r = kap c.1 c.2.1 l r := by
+  unfold kapC; rw [if_pos h]
+
+/-- One source class - of positive width or a point - is fully distributed over a gap-free binning that covers it. -/
+theorem kapC_sum (l r b0 : ℝ) (rest : List ℝ) (hne : rest ≠ []) (hm : Mono (b0 :: rest)) (hlr : l ≤ r)
     (hl : b0 ≤ l) (hr : r ≤ (b0 :: rest).getLast (List.cons_ne_nil _ _)) :
-    ((pairs (b0 :: rest)).map fun p => kap p.1 p.2 l r).sum = 1 := by
-  have hle := le_of_lt hpos
-  have h1 : ((pairs (b0 :: rest)).map fun p => kap p.1 p.2 l r) =
-      (pairs (b0 :: rest)).map fun p => (1 / (r - l)) * (cl l r p.2 - cl l r p.1) := by
-    apply List.map_congr_left
-    intro p hp
-    rw [kap_clamp _ _ _ _ (pairs_bounds b0 rest hm p hp).2.1 hpos]; ring
-  rw [h1, List.sum_map_mul_left, pairs_telescope (cl l r) b0 rest, cl_of_ge hr hle, cl_of_le hl hle]
-  have : r - l ≠ 0 := by linarith
-  field_simp
+    ((classes (b0 :: rest)).map fun c => kapC c l r).sum = 1 := by
+  rcases lt_or_eq_of_le hlr with hpos | heq
+  · have : ((classes (b0 :: rest)).map fun c => kapC c l r) =
+        (classes (b0 :: rest)).map fun c => (fun p : ℝ × ℝ => kap p.1 p.2 l r) (c.1, c.2.1) := by
+      apply List.map_congr_left; intro c _; exact kapC_of_pos c l r hpos
+    rw [this, classes_sum_pairs (b0 :: rest) (fun p => kap p.1 p.2 l r)]
+    exact kap_sum l r b0 rest hm hpos hl hr
+  · subst heq
+    have : ((classes (b0 :: rest)).map fun c => kapC c l l) =
+        (classes (b0 :: rest)).map fun c => if (fun c : ℝ × ℝ × Bool => inBin c.1 c.2.1 c.2.2 l) c = true then (1 : ℝ) else 0 := by
+      apply List.map_congr_left; intro c _
+      unfold kapC; rw [if_neg (lt_irrefl l)]
+    rw [this, sum_ite_countP, classes_count b0 rest l hne hm]
+    simp [inRange, hl, hr]
 
+/-- Total of the re-binned histogram = Σ content × (Σ shares over the target classes). -/
 theorem total_rebin (src : List (Bin ℝ)) (breaks : List ℝ) :
-    total (rebin src breaks) = (src.map fun s => s.v * ((pairs breaks).map fun p => kap p.1 p.2 s.l s.r).sum).sum := by
+    total (rebin src breaks) = (src.map fun s => s.v * ((classes breaks).map fun c => kapC c s.l s.r).sum).sum := by
   rw [total_eq_sum]
   unfold rebin aggregate
   simp only [total_eq_sum]
-  have : ((pairs breaks).map ((fun p : ℝ × ℝ => (List.map (share p.1 p.2) src).sum))) =
-      (pairs breaks).map fun p => (src.map fun s => s.v * kap p.1 p.2 s.l s.r).sum := by
-    apply List.map_congr_left; intro p _; congr 1
-    apply List.map_congr_left; intro s _; exact share_eq _ _ s
+  have : ((classes breaks).map ((fun c : ℝ × ℝ × Bool => (List.map (shareC c) src).sum))) =
+      (classes breaks).map fun c => (src.map fun s => s.v * kapC c s.l s.r).sum := by
+    apply List.map_congr_left; intro c _; congr 1
+    apply List.map_congr_left; intro s _; exact shareC_eq c s
   rw [this, sum_map_sum_comm]
   congr 1
   apply List.map_congr_left; intro s _
   rw [List.sum_map_mul_left]
 
-/-- The binning with breaks `B` refines the source class `(l, r]`: no class of `B` straddles an end point. -/
-def RefinesClass (l r : ℝ) (B : List ℝ) : Prop :=
-  ∀ p ∈ pairs B, p.2 ≤ l ∨ r ≤ p.1 ∨ (l ≤ p.1 ∧ p.2 ≤ r)
+theorem binTotal_rebinBins (src : List (Bin ℝ)) (breaks : List ℝ) :
+    binTotal (rebinBins src breaks) = total (rebin src breaks) := by
+  unfold binTotal rebinBins rebin
+  rw [List.map_map]; rfl
 
-/-- Composition for one source class: distributing `(l, r]` over a refining binning `B` and each class of
-`B` into `(tl, tr]` gives the direct share. -/
-theorem kap_compose (l r tl tr b0 : ℝ) (rest : List ℝ) (hs : SMono (b0 :: rest)) (hpos : l < r) (ht : tl ≤ tr)
-    (hl : b0 ≤ l) (hr : r ≤ (b0 :: rest).getLast (List.cons_ne_nil _ _)) (href : RefinesClass l r (b0 :: rest)) :
-    ((pairs (b0 :: rest)).map fun p => kap p.1 p.2 l r * kap tl tr p.1 p.2).sum = kap tl tr l r := by
-  have hle := le_of_lt hpos
-  have hne : r - l ≠ 0 := by linarith
-  have h1 : ((pairs (b0 :: rest)).map fun p => kap p.1 p.2 l r * kap tl tr p.1 p.2) =
-      (pairs (b0 :: rest)).map fun p =>
-        (1 / (r - l)) * (cl tl tr (cl l r p.2) - cl tl tr (cl l r p.1)) := by
-    apply List.map_congr_left
-    intro p hp
-    have hp12 := pairs_strict _ hs p hp
-    have hpne : p.2 - p.1 ≠ 0 := by linarith
-    rw [kap_clamp _ _ _ _ (le_of_lt hp12) hpos, kap_clamp' tl tr _ _ ht hp12]
-    rcases href p hp with h | h | ⟨h, h'⟩
-    · rw [cl_of_le h hle, cl_of_le (le_trans (le_of_lt hp12) h) hle]; simp
-    · rw [cl_of_ge h hle, cl_of_ge (le_trans h (le_of_lt hp12)) hle]; simp
-    · rw [cl_of_mem (le_trans h (le_of_lt hp12)) h', cl_of_mem h (le_trans (le_of_lt hp12) h')]
-      field_simp
-  have tele := pairs_telescope (fun x => cl tl tr (cl l r x)) b0 rest
-  rw [h1, List.sum_map_mul_left, tele]
-  rw [cl_of_ge hr hle, cl_of_le hl hle, kap_clamp' tl tr l r ht hpos]
-  ring
+/-- Re-binning conserves the total (gap-free target with at least one class that covers every source class). -/
+theorem total_rebin_cover (src : List (Bin ℝ)) (b0 : ℝ) (rest : List ℝ) (hne : rest ≠ []) (hm : Mono (b0 :: rest))
+    (hval : ∀ s ∈ src, s.l ≤ s.r)
+    (hcov : ∀ s ∈ src, b0 ≤ s.l ∧ s.r ≤ (b0 :: rest).getLast (List.cons_ne_nil _ _)) :
+    total (rebin src (b0 :: rest)) = binTotal src := by
+  rw [total_rebin, binTotal, total_eq_sum]
+  congr 1
+  apply List.map_congr_left
+  intro s hs
+  rw [kapC_sum s.l s.r b0 rest hne hm (hval s hs) (hcov s hs).1 (hcov s hs).2]; ring
 
-/-- In a strictly increasing list no element lies strictly inside a class. -/
-theorem pairs_no_inner : ∀ (l : List ℝ), SMono l → ∀ p ∈ pairs l, ∀ x ∈ l, x ≤ p.1 ∨ p.2 ≤ x
-  | [], _, p, hp, _, _ => by simp [pairs] at hp
-  | [_], _, p, hp, _, _ => by simp [pairs] at hp
-  | b0 :: b1 :: rest, hm, p, hp, x, hx => by
-    have hmono := SMono.mono hm
-    simp only [pairs, List.mem_cons] at hp
-    rcases hp with rfl | hp
-    · simp only [List.mem_cons] at hx
-      rcases hx with rfl | rfl | hx
-      · left; exact le_refl _
-      · right; exact le_refl _
-      · right
-        -- x is a later break: b1 ≤ x
-        have : ∀ (a : ℝ) (t : List ℝ), Mono (a :: t) → ∀ y ∈ t, a ≤ y := by
-          intro a t
-          induction t generalizing a with
-          | nil => intro _ y hy; simp at hy
-          | cons c t ih =>
-            intro hm' y hy
-            simp only [List.mem_cons] at hy
-            rcases hy with rfl | hy
-            · exact hm'.1
-            · exact le_trans hm'.1 (ih c hm'.2 y hy)
-        exact this b1 rest hmono.2 x hx
-    · simp only [List.mem_cons] at hx
-      rcases hx with rfl | hx
-      · left
-        exact le_trans (le_of_lt hm.1) (pairs_bounds b1 rest hmono.2 p hp).1
-      · exact pairs_no_inner (b1 :: rest) hm.2 p hp x (List.mem_cons.mpr hx)
+/-! ### source classes of positive width: the linear rule alone -/
 
-/-- A binning that contains both end points of a class among its breaks refines the class. -/
-theorem refinesClass_of_mem (l r : ℝ) (B : List ℝ) (hs : SMono B) (hlr : l ≤ r) (hl : l ∈ B) (hr : r ∈ B) :
-    RefinesClass l r B := by
-  intro p hp
-  rcases pairs_no_inner B hs p hp l hl with a | a
-  · rcases pairs_no_inner B hs p hp r hr with b | b
-    · right; left; exact b
-    · right; right; exact ⟨a, b⟩
-  · left; exact a
+/-- The re-bin by the linear rule alone (what `rebin` is when every source class has positive width). -/
+noncomputable def rebinS (src : List (Bin ℝ)) (breaks : List ℝ) : List ℝ :=
+  (pairs breaks).map fun p => total (src.map (share p.1 p.2))
 
-/-! ### same binning -/
+noncomputable def rebinBinsS (src : List (Bin ℝ)) (breaks : List ℝ) : List (Bin ℝ) :=
+  (pairs breaks).map fun p => ⟨p.1, p.2, total (src.map (share p.1 p.2))⟩
 
-theorem kap_self (l r : ℝ) (h : l < r) : kap l r l r = 1 := by
-  unfold kap
-  rw [if_pos ⟨h, h⟩, min_self, max_self]
-  have : r - l ≠ 0 := by linarith
-  field_simp
+theorem aggregate_of_pos (src : List (Bin ℝ)) (hpos : ∀ s ∈ src, s.l < s.r) (c : ℝ × ℝ × Bool) :
+    aggregate src c = total (src.map (share c.1 c.2.1)) := by
+  unfold aggregate
+  congr 1
+  apply List.map_congr_left
+  intro s hs
+  exact shareC_of_pos c s (hpos s hs)
 
-theorem kap_disjoint_left (tl tr l r : ℝ) (h : tr ≤ l) : kap tl tr l r = 0 := by
-  unfold kap; rw [if_neg]; intro ⟨a, _⟩; linarith
+theorem rebin_eq_rebinS (src : List (Bin ℝ)) (breaks : List ℝ) (hpos : ∀ s ∈ src, s.l < s.r) :
+    rebin src breaks = rebinS src breaks := by
+  unfold rebin rebinS
+  rw [← classes_map_pairs, List.map_map]
+  apply List.map_congr_left
+  intro c _
+  exact aggregate_of_pos src hpos c
 
-theorem kap_disjoint_right (tl tr l r : ℝ) (h : r ≤ tl) : kap tl tr l r = 0 := by
-  unfold kap; rw [if_neg]; intro ⟨_, a⟩; linarith
+theorem rebinBins_eq_rebinBinsS (src : List (Bin ℝ)) (breaks : List ℝ) (hpos : ∀ s ∈ src, s.l < s.r) :
+    rebinBins src breaks = rebinBinsS src breaks := by
+  unfold rebinBins rebinBinsS
+  rw [← classes_map_pairs, List.map_map]
+  apply List.map_congr_left
+  intro c _
+  simp only [Function.comp, aggregate_of_pos src hpos c]
 
-theorem binsOf_left_ge : ∀ (b0 : ℝ) (rest : List ℝ) (vals : List ℝ), Mono (b0 :: rest) →
-    ∀ s ∈ binsOf (b0 :: rest) vals, b0 ≤ s.l
-  | b0, [], vals, _, s, hs => by simp [binsOf, pairs] at hs
-  | b0, b1 :: rest, [], _, s, hs => by simp [binsOf] at hs
-  | b0, b1 :: rest, v :: vs, hm, s, hs => by
-    simp only [binsOf, pairs, List.zipWith_cons_cons, List.mem_cons] at hs
-    rcases hs with rfl | hs
-    · exact le_refl _
-    · exact le_trans hm.1 (binsOf_left_ge b1 rest vs hm.2 s hs)
+theorem rebinBins_pos (src : List (Bin ℝ)) (breaks : List ℝ) (hb : SMono breaks) :
+    ∀ s ∈ rebinBins src breaks, s.l < s.r := by
+  intro s hs
+  unfold rebinBins at hs
+  obtain ⟨c, hc, rfl⟩ := List.mem_map.mp hs
+  exact pairs_strict _ hb _ (classes_mem_pairs breaks c hc)
 
-/-- Re-binning to the histogram's own binning returns the contents unchanged. -/
-theorem rebin_self : ∀ (breaks vals : List ℝ), SMono breaks → vals.length = (pairs breaks).length →
-    rebin (binsOf breaks vals) breaks = vals
+theorem rebinBins_bounds (src : List (Bin ℝ)) (b0 : ℝ) (rest : List ℝ) (hm : Mono (b0 :: rest)) :
+    ∀ s ∈ rebinBins src (b0 :: rest), b0 ≤ s.l ∧ s.l ≤ s.r ∧ s.r ≤ (b0 :: rest).getLast (List.cons_ne_nil _ _) := by
+  intro s hs
+  unfold rebinBins at hs
+  obtain ⟨c, hc, rfl⟩ := List.mem_map.mp hs
+  exact pairs_bounds b0 rest hm _ (classes_mem_pairs _ c hc)
+
+/-- Re-binning (linear rule) to the histogram's own binning returns the contents unchanged. -/
+theorem rebinS_self : ∀ (breaks vals : List ℝ), SMono breaks → vals.length = (pairs breaks).length →
+    rebinS (binsOf breaks vals) breaks = vals
   | [], vals, _, hlen => by
-    simp [pairs] at hlen; simp [rebin, pairs, hlen]
+    simp [pairs] at hlen; simp [rebinS, pairs, hlen]
   | [_], vals, _, hlen => by
-    simp [pairs] at hlen; simp [rebin, pairs, hlen]
+    simp [pairs] at hlen; simp [rebinS, pairs, hlen]
   | b0 :: b1 :: rest, [], _, hlen => by simp [pairs] at hlen
   | b0 :: b1 :: rest, v :: vs, hm, hlen => by
     have hmono := SMono.mono hm
-    have ih := rebin_self (b1 :: rest) vs hm.2 (by simpa [pairs] using hlen)
+    have ih := rebinS_self (b1 :: rest) vs hm.2 (by simpa [pairs] using hlen)
     have hge := binsOf_left_ge b1 rest vs hmono.2
-    unfold rebin at ih ⊢
-    simp only [pairs, binsOf, List.zipWith_cons_cons, List.map_cons, aggregate, total_eq_sum, List.sum_cons,
+    unfold rebinS at ih ⊢
+    simp only [pairs, binsOf, List.zipWith_cons_cons, List.map_cons, total_eq_sum, List.sum_cons,
       share_fun] at ih ⊢
     rw [List.cons.injEq]
     constructor
@@ -449,47 +180,158 @@ theorem rebin_self : ∀ (breaks vals : List ℝ), SMono breaks → vals.length 
       have hp1 := (pairs_bounds b1 rest hmono.2 p hp).1
       rw [kap_disjoint_right p.1 p.2 b0 b1 hp1]; ring
 
-theorem binsOf_mem : ∀ (breaks vals : List ℝ), SMono breaks →
-    ∀ s ∈ binsOf breaks vals, s.l < s.r ∧ s.l ∈ breaks ∧ s.r ∈ breaks
-  | [], vals, _, s, hs => by simp [binsOf, pairs] at hs
-  | [_], vals, _, s, hs => by simp [binsOf, pairs] at hs
-  | b0 :: b1 :: rest, [], _, s, hs => by simp [binsOf] at hs
-  | b0 :: b1 :: rest, v :: vs, hm, s, hs => by
-    simp only [binsOf, pairs, List.zipWith_cons_cons, List.mem_cons] at hs
-    rcases hs with rfl | hs
-    · exact ⟨hm.1, by simp, by simp⟩
-    · obtain ⟨h1, h2, h3⟩ := binsOf_mem (b1 :: rest) vs hm.2 s hs
-      exact ⟨h1, List.mem_cons_of_mem _ h2, List.mem_cons_of_mem _ h3⟩
+theorem rebin_self (breaks vals : List ℝ) (hs : SMono breaks) (hlen : vals.length = (pairs breaks).length) :
+    rebin (binsOf breaks vals) breaks = vals := by
+  rw [rebin_eq_rebinS _ _ (fun s h => (binsOf_mem breaks vals hs s h).1)]
+  exact rebinS_self breaks vals hs hlen
 
-theorem mono_mem_bounds : ∀ (b0 : ℝ) (rest : List ℝ), Mono (b0 :: rest) → ∀ x ∈ b0 :: rest,
-    b0 ≤ x ∧ x ≤ (b0 :: rest).getLast (List.cons_ne_nil _ _)
-  | b0, [], _, x, hx => by simp at hx; subst hx; simp
-  | b0, b1 :: rest, hm, x, hx => by
-    have hL : (b0 :: b1 :: rest).getLast (List.cons_ne_nil _ _) =
-        (b1 :: rest).getLast (List.cons_ne_nil _ _) := List.getLast_cons_cons ..
-    rw [hL]
-    rcases List.mem_cons.mp hx with rfl | hx
-    · exact ⟨le_refl _, le_trans hm.1 (Mono.le_getLast b1 rest hm.2)⟩
-    · obtain ⟨h1, h2⟩ := mono_mem_bounds b1 rest hm.2 x hx
-      exact ⟨le_trans hm.1 h1, h2⟩
+/-- Composition step in the linear world: if the shares compose for every source class and every target class,
+re-binning through `B` equals re-binning directly. -/
+theorem rebinS_compose_of_kap (src : List (Bin ℝ)) (bbreaks cbreaks : List ℝ)
+    (hk : ∀ s ∈ src, ∀ q ∈ pairs cbreaks,
+      ((pairs bbreaks).map fun p => kap p.1 p.2 s.l s.r * kap q.1 q.2 p.1 p.2).sum = kap q.1 q.2 s.l s.r) :
+    rebinS (rebinBinsS src bbreaks) cbreaks = rebinS src cbreaks := by
+  unfold rebinS
+  apply List.map_congr_left
+  intro q hq
+  unfold rebinBinsS
+  simp only [total_eq_sum, List.map_map, share_fun, Function.comp_def]
+  have h1 : ((pairs bbreaks).map fun p => (src.map fun s => s.v * kap p.1 p.2 s.l s.r).sum * kap q.1 q.2 p.1 p.2) =
+      (pairs bbreaks).map fun p => (src.map fun s => s.v * (kap p.1 p.2 s.l s.r * kap q.1 q.2 p.1 p.2)).sum := by
+    apply List.map_congr_left
+    intro p _
+    rw [← List.sum_map_mul_right]
+    congr 1
+    apply List.map_congr_left
+    intro s _; ring
+  rw [h1, sum_map_sum_comm]
+  congr 1
+  apply List.map_congr_left
+  intro s hs
+  rw [List.sum_map_mul_left, hk s hs q hq]
+
+/-! ### histograms given by breaks and contents -/
+
+theorem zipWith_bin_mem : ∀ (ps : List (ℝ × ℝ)) (vals : List ℝ) (s : Bin ℝ),
+    s ∈ List.zipWith (fun p v => (⟨p.1, p.2, v⟩ : Bin ℝ)) ps vals → (s.l, s.r) ∈ ps
+  | [], _, s, hs => by simp at hs
+  | _ :: _, [], s, hs => by simp at hs
+  | p :: ps, v :: vs, s, hs => by
+    simp only [List.zipWith_cons_cons, List.mem_cons] at hs
+    rcases hs with rfl | hs
+    · exact List.mem_cons_self ..
+    · exact List.mem_cons_of_mem _ (zipWith_bin_mem ps vs s hs)
+
+theorem binsOf_bounds (b0 : ℝ) (rest : List ℝ) (vals : List ℝ) (hm : Mono (b0 :: rest)) :
+    ∀ s ∈ binsOf (b0 :: rest) vals, b0 ≤ s.l ∧ s.l ≤ s.r ∧ s.r ≤ (b0 :: rest).getLast (List.cons_ne_nil _ _) := by
+  intro s hs
+  exact pairs_bounds b0 rest hm _ (zipWith_bin_mem _ vals s hs)
+
+theorem binTotal_binsOf : ∀ (breaks vals : List ℝ), vals.length = (pairs breaks).length →
+    binTotal (binsOf breaks vals) = total vals := by
+  intro breaks vals hlen
+  unfold binTotal binsOf
+  congr 1
+  rw [List.map_zipWith]
+  generalize pairs breaks = ps at hlen
+  induction vals generalizing ps with
+  | nil => simp
+  | cons v vs ih =>
+    cases ps with
+    | nil => simp at hlen
+    | cons p ps =>
+      simp only [List.zipWith_cons_cons, List.cons.injEq, true_and]
+      exact ih ps (by simpa using hlen)
+
+theorem hist_length (edges : List ℝ) (pts : List (ℝ × ℝ)) : (hist edges pts).length = (pairs edges).length := by
+  unfold hist
+  rw [List.length_map, classes_length]
+
+/-! ### a zero-width last class (the shape `np.histogram` produces for a repeated last edge) -/
+
+theorem pairs_append_singleton : ∀ (l : List ℝ) (hne : l ≠ []) (x : ℝ),
+    pairs (l ++ [x]) = pairs l ++ [(l.getLast hne, x)]
+  | [], h, _ => absurd rfl h
+  | [a], _, x => by simp [pairs]
+  | a :: b :: t, _, x => by
+    have ih := pairs_append_singleton (b :: t) (List.cons_ne_nil _ _) x
+    simp only [List.cons_append, pairs, List.getLast_cons_cons] at ih ⊢
+    rw [ih]
+
+theorem classes_append_singleton : ∀ (l : List ℝ) (hne : l ≠ []) (x : ℝ),
+    classes (l ++ [x]) = (pairs l).map (fun p => (p.1, p.2, false)) ++ [(l.getLast hne, x, true)]
+  | [], h, _ => absurd rfl h
+  | [a], _, x => by simp [pairs, classes]
+  | [a, b], _, x => by simp [pairs, classes]
+  | a :: b :: c :: t, _, x => by
+    have ih := classes_append_singleton (b :: c :: t) (List.cons_ne_nil _ _) x
+    simp only [List.cons_append, pairs, classes, List.getLast_cons_cons, List.map_cons] at ih ⊢
+    rw [ih]
+
+theorem aggregate_append (X Y : List (Bin ℝ)) (c : ℝ × ℝ × Bool) :
+    aggregate (X ++ Y) c = aggregate X c + aggregate Y c := by
+  unfold aggregate; simp [total_eq_sum]
+
+theorem binsOf_append_singleton (breaks vals : List ℝ) (hne : breaks ≠ []) (x v : ℝ)
+    (hlen : vals.length = (pairs breaks).length) :
+    binsOf (breaks ++ [x]) (vals ++ [v]) = binsOf breaks vals ++ [⟨breaks.getLast hne, x, v⟩] := by
+  unfold binsOf
+  rw [pairs_append_singleton breaks hne x, List.zipWith_append hlen.symm]
+  rfl
+
+
+theorem rebin_self_point_last (breaks vals : List ℝ) (v : ℝ) (hs : SMono breaks) (hne : breaks ≠ [])
+    (hlen : vals.length = (pairs breaks).length) :
+    rebin (binsOf (breaks ++ [breaks.getLast hne]) (vals ++ [v])) (breaks ++ [breaks.getLast hne]) = vals ++ [v] := by
+  obtain ⟨b0, rest, rfl⟩ : ∃ b0 rest, breaks = b0 :: rest := by
+    cases breaks with
+    | nil => exact absurd rfl hne
+    | cons b0 rest => exact ⟨b0, rest, rfl⟩
+  have hX := binsOf_mem (b0 :: rest) vals hs
+  have hXb := binsOf_bounds b0 rest vals hs.mono
+  have hpos : ∀ s ∈ binsOf (b0 :: rest) vals, s.l < s.r := fun s h => (hX s h).1
+  rw [binsOf_append_singleton _ _ hne _ _ hlen]
+  unfold rebin
+  rw [classes_append_singleton _ hne, List.map_append, List.map_map, List.map_singleton]
+  generalize hL : (b0 :: rest).getLast hne = L at *
+  have hLeq : (b0 :: rest).getLast (List.cons_ne_nil _ _) = L := hL
+  congr 1
+  · refine (List.map_congr_left ?_).trans (rebinS_self _ vals hs hlen)
+    intro p hp
+    have hp2 : p.2 ≤ L := hLeq ▸ (pairs_bounds b0 rest hs.mono p hp).2.2
+    simp only [Function.comp, aggregate_append, aggregate_of_pos _ hpos]
+    have : aggregate [(⟨L, L, v⟩ : Bin ℝ)] (p.1, p.2, false) = 0 := by
+      simp [aggregate, total, shareC, inBin, not_lt.mpr hp2]
+    rw [this, add_zero]
+  · rw [aggregate_append, aggregate_of_pos _ hpos]
+    have h0 : total ((binsOf (b0 :: rest) vals).map (share L L)) = 0 := by
+      rw [total_eq_sum]
+      apply List.sum_eq_zero
+      intro x hx
+      obtain ⟨s, hs', rfl⟩ := List.mem_map.mp hx
+      have : s.r ≤ L := hLeq ▸ (hXb s hs').2.2
+      rw [share_eq, kap_disjoint_right _ _ _ _ this]; ring
+    have h1 : aggregate [(⟨L, L, v⟩ : Bin ℝ)] (L, L, true) = v := by
+      simp [aggregate, total, shareC, inBin]
+    simp only [h0, h1, zero_add]
 
 /-! ### two-level re-binning -/
 
-theorem share2_eq (pl pr ql qr : ℝ) (c : Cell ℝ) :
-    share2 pl pr ql qr c = c.v * (kap pl pr c.xl c.xr * kap ql qr c.yl c.yr) := by
+theorem share2_eq (p q : ℝ × ℝ × Bool) (c : Cell ℝ) :
+    share2 p q c = c.v * (kapC p c.xl c.xr * kapC q c.yl c.yr) := by
   unfold share2
-  rw [share_eq, share_eq]
+  rw [shareC_eq, shareC_eq]
   ring
 
 /-- Sum of all cells of the two-level re-bin = Σ content × (Σ first-level shares) × (Σ second-level shares). -/
 theorem total_rebin2 (cells : List (Cell ℝ)) (bx bys : List ℝ) :
     total ((rebin2 cells bx bys).map total) =
-      (cells.map fun c => c.v * (((pairs bx).map fun p => kap p.1 p.2 c.xl c.xr).sum *
-        ((pairs bys).map fun q => kap q.1 q.2 c.yl c.yr).sum)).sum := by
+      (cells.map fun c => c.v * (((classes bx).map fun p => kapC p c.xl c.xr).sum *
+        ((classes bys).map fun q => kapC q c.yl c.yr).sum)).sum := by
   unfold rebin2
   simp only [total_eq_sum, List.map_map, Function.comp_def]
-  have inner : ∀ p : ℝ × ℝ, ((pairs bys).map fun q => (cells.map (share2 p.1 p.2 q.1 q.2)).sum).sum =
-      (cells.map fun c => c.v * kap p.1 p.2 c.xl c.xr * ((pairs bys).map fun q => kap q.1 q.2 c.yl c.yr).sum).sum := by
+  have inner : ∀ p : ℝ × ℝ × Bool, ((classes bys).map fun q => (cells.map (share2 p q)).sum).sum =
+      (cells.map fun c => c.v * kapC p c.xl c.xr * ((classes bys).map fun q => kapC q c.yl c.yr).sum).sum := by
     intro p
     rw [sum_map_sum_comm]
     congr 1
@@ -505,79 +347,41 @@ theorem total_rebin2 (cells : List (Cell ℝ)) (bx bys : List ℝ) :
   congr 1
   apply List.map_congr_left
   intro c _
-  have : ((pairs bx).map fun p => c.v * kap p.1 p.2 c.xl c.xr * ((pairs bys).map fun q => kap q.1 q.2 c.yl c.yr).sum) =
-      (pairs bx).map fun p => (c.v * ((pairs bys).map fun q => kap q.1 q.2 c.yl c.yr).sum) * kap p.1 p.2 c.xl c.xr := by
+  have : ((classes bx).map fun p => c.v * kapC p c.xl c.xr * ((classes bys).map fun q => kapC q c.yl c.yr).sum) =
+      (classes bx).map fun p => (c.v * ((classes bys).map fun q => kapC q c.yl c.yr).sum) * kapC p c.xl c.xr := by
     apply List.map_congr_left; intro p _; ring
   rw [this, List.sum_map_mul_left]
   ring
 
-/-! ### combining -/
-
-theorem binTotal_cons (b : Bin ℝ) (l : List (Bin ℝ)) : binTotal (b :: l) = b.v + binTotal l := by
-  simp [binTotal, total_eq_sum]
-
-theorem binTotal_insert (b : Bin ℝ) : ∀ l : List (Bin ℝ), binTotal (insertBin b l) = binTotal l + b.v
-  | [] => by simp [insertBin, binTotal, total_eq_sum]
-  | c :: cs => by
-    unfold insertBin
-    split_ifs
-    · simp only [binTotal_cons]; ring
-    · simp only [binTotal_cons]; ring
-    · simp only [binTotal_cons, binTotal_insert b cs]; ring
-
-theorem binTotal_foldl (l : List (Bin ℝ)) : ∀ acc : List (Bin ℝ),
-    binTotal (l.foldl (fun acc b => insertBin b acc) acc) = binTotal acc + binTotal l := by
-  induction l with
-  | nil => intro acc; simp [binTotal, total_eq_sum]
-  | cons b bs ih =>
-    intro acc
-    rw [List.foldl_cons, ih, binTotal_insert, binTotal_cons]; ring
-
-theorem binTotal_append (a b : List (Bin ℝ)) : binTotal (a ++ b) = binTotal a + binTotal b := by
-  simp [binTotal, total_eq_sum]
-
 /-! ### unoccupied (NaN) classes -/
 
-theorem binTotal_present : ∀ l : List (OBin ℝ), binTotal (present l) = (l.map fun b => b.v.getD 0).sum
-  | [] => by simp [present, binTotal, total_eq_sum]
-  | b :: bs => by
-    have ih := binTotal_present bs
-    cases hv : b.v with
-    | none => simp [present, hv, ih]
-    | some v => simp [present, hv, binTotal_cons, ih]
-
-theorem binTotal_getD (l : List (OBin ℝ)) :
-    binTotal (l.map fun b => (⟨b.l, b.r, b.v.getD 0.0⟩ : Bin ℝ)) = binTotal (present l) := by
-  rw [binTotal_present]
-  simp [binTotal, total_eq_sum, Function.comp_def]
-
-theorem share_of_not_overlaps (tl tr : ℝ) (s : Bin ℝ) (h : overlapsB tl tr s = false) : share tl tr s = 0 := by
-  unfold share
-  unfold overlapsB at h
-  rw [if_neg]
+theorem shareC_of_not_occupies (c : ℝ × ℝ × Bool) (s : Bin ℝ) (h : occupies c s = false) : shareC c s = 0 := by
+  unfold occupies at h
+  unfold shareC
+  split_ifs at h ⊢ with h1 h2
+  · exact share_of_not_overlaps _ _ s h
+  · rw [h] at h2; exact absurd h2 (by simp)
   · simp
-  · intro ⟨a, b⟩
-    simp [a, b] at h
 
-theorem sum_filter_share (tl tr : ℝ) : ∀ l : List (Bin ℝ),
-    ((l.filter (overlapsB tl tr)).map (share tl tr)).sum = (l.map (share tl tr)).sum
+theorem sum_filter_shareC (c : ℝ × ℝ × Bool) : ∀ l : List (Bin ℝ),
+    ((l.filter (occupies c)).map (shareC c)).sum = (l.map (shareC c)).sum
   | [] => by simp
   | x :: xs => by
-    have ih := sum_filter_share tl tr xs
-    cases h : overlapsB tl tr x
-    · simp [List.filter_cons, h, ih, share_of_not_overlaps tl tr x h]
-    · simp [List.filter_cons, h, ih]
+    have ih := sum_filter_shareC c xs
+    cases h : occupies c x
+    · simp [h, ih, shareC_of_not_occupies c x h]
+    · simp [h, ih]
 
 /-- With NaN counted as nothing, the re-bin with `nan_default` (either setting) has the contents of the plain
 re-bin of the occupied source classes. -/
-theorem aggregateOpt_getD (nd : Bool) (src : List (OBin ℝ)) (tl tr : ℝ) :
-    (aggregateOpt nd src tl tr).getD 0 = aggregate (present src) tl tr := by
+theorem aggregateOpt_getD (nd : Bool) (src : List (OBin ℝ)) (c : ℝ × ℝ × Bool) :
+    (aggregateOpt nd src c).getD 0 = aggregate (present src) c := by
   unfold aggregateOpt aggregate
   simp only [total_eq_sum]
-  rw [← sum_filter_share tl tr (present src)]
-  by_cases he : ((present src).filter (overlapsB tl tr)).isEmpty = true
-  · have : (present src).filter (overlapsB tl tr) = [] := List.isEmpty_iff.mp he
-    simp only [he, if_true, this]
+  rw [← sum_filter_shareC c (present src)]
+  by_cases he : ((present src).filter (occupies c)).isEmpty = true
+  · have : (present src).filter (occupies c) = [] := List.isEmpty_iff.mp he
+    simp only [this]
     cases nd <;> simp
   · simp [he]
 
@@ -586,7 +390,7 @@ theorem rebinOpt_getD (nd : Bool) (src : List (OBin ℝ)) (breaks : List ℝ) :
   unfold rebinOpt rebin
   rw [List.map_map]
   apply List.map_congr_left
-  intro p _
-  exact aggregateOpt_getD nd src p.1 p.2
+  intro c _
+  exact aggregateOpt_getD nd src c
 
 end PylifeVerif.Collective
